@@ -17,6 +17,7 @@ from engine import common
 from engine.kani.runner import KaniCrate, Harness, confirm_failures
 from spec import catalogue
 from props import kanigen as G
+from props import synthdefs
 
 
 def first_idx(order):
@@ -138,7 +139,11 @@ def run(report, tier):
     pre_f = G.PRELUDE + "".join(G.tables(q, "f64") for q in catalogue.CATALOGUE)
     for q in catalogue.ASTRO:
         pre_f += G.tables(q, "f64").replace("const %s_" % q.name.upper(), "const A%s_" % q.name.upper())
+    synth = [synthdefs.PILE, synthdefs.TRI, synthdefs.TARIFF, synthdefs.DOSE]
+    pre_f += synthdefs.SYNTH_RS + "".join(G.tables(q, "f64") for q in synth)
     kf = KaniCrate("c09f", "f64", astro=True, extra_src=pre_f)
+    for q in synth:
+        add_type(kf, q, "f64", "", nbytes, True, True)
     # symbolic strings cost grows steeply with the number of units (18-unit types: > 15 min at 2 bytes)
     small = {q.name for q in catalogue.CATALOGUE if len(q.units) <= 8}
     string_types = small if tier == "quick" else {q.name for q in catalogue.CATALOGUE if len(q.units) <= 13}
@@ -148,7 +153,9 @@ def run(report, tier):
         add_type(kf, q, "f64", "A", nbytes, tier == "thorough", True)
     kf.add(Harness("canary_must_fail", "        let i: usize = kani::any();\n        kani::assume(i < LENGTH_N);\n        assert!(LENGTH_IDENTS[i].is_ref_unit());\n",
                    expect="fail", unwind=15, key="canary", symbolic=False))
-    kd = KaniCrate("c09d", "dec", extra_src="use quantities::Decimal;\n" + G.PRELUDE + "".join(G.tables(q, "dec") for q in catalogue.CATALOGUE))
+    kd = KaniCrate("c09d", "dec", extra_src="use quantities::Decimal;\n" + G.PRELUDE + synthdefs.SYNTH_RS + "".join(G.tables(q, "dec") for q in catalogue.CATALOGUE + synth))
+    for q in synth:
+        add_type(kd, q, "dec", "", nbytes, False, False)
     for q in catalogue.CATALOGUE:
         add_type(kd, q, "dec", "", nbytes, False, False)
     import concurrent.futures as cf
@@ -170,7 +177,7 @@ def run(report, tier):
                 report.violation("registry:missing:" + ",".join(names), "declared units/constants are missing from the generated registry: %s" % names, p)
     report.functions.update(["Unit::iter / Quantity::iter_units (real core::iter)", "Unit::from_symbol", "Quantity::unit_from_symbol", "LinearScaledUnit::from_scale",
                              "HasRefUnit::unit_from_scale", "LinearScaledUnit::is_ref_unit", "Unit::as_qty", "generated VARIANTS / constants"])
-    report.bounds.update({"units": "every unit / position of 14 catalogue types (f64 + decimal) and 4 astronomical types by symbolic index",
+    report.bounds.update({"units": "every unit / position of 14 catalogue types (f64 + decimal), 4 astronomical types and 4 synthetic macro-defined types (single-unit, two without reference unit - one whose name order differs from identifier order -, one with reference unit) by symbolic index",
                           "strings": "every UTF-8 string of <= %d bytes for the types with <= %d units, plus every declared symbol of every type" % (nbytes, 8 if tier == "quick" else 13),
                           "scales": "every f64 bit pattern (decimal scale lookup: not covered by E1)"})
     confirm_failures(report)
